@@ -114,8 +114,14 @@ TReleaseR(t) == /\ tpc[t] = "have_r"
                 /\ vfsR' = vfsR \ {t} /\ tpc' = [tpc EXCEPT ![t] = IF tkind[t] = "diag" THEN "want_pub" ELSE "finish"]
                 /\ UNCH(<<inbox, mpc, vfsW, snaps, pubLock, tkind, tleft, nextTask, rev, trev, tver, dver, pubSeq, answered, processed, sched>>)
 \* diagnostics() computed, published-files mutex taken, about to publish for the next file    hook task.publish
-TPublish(t) == /\ tpc[t] = "want_pub" /\ tleft[t] > 0 /\ pubLock \in {0, t}
-               /\ pubLock' = t /\ tleft' = [tleft EXCEPT ![t] = @ - 1]
+\* ("early-release": a second witness variant - the task gives up its snapshot and the mutex once diagnostics() is computed and
+\*  publishes afterwards, as a seeded change did; TLC then finds VersionsMonotone violated: the invariant depends on the barrier)
+TEarlyRelease(t) == /\ Variant = "early-release" /\ tpc[t] = "want_pub" /\ t \in snaps
+                    /\ snaps' = snaps \ {t}
+                    /\ UNCH(<<inbox, mpc, vfsW, vfsR, pubLock, tpc, tkind, tleft, nextTask, rev, trev, tver, dver, pubSeq, answered, processed, sched>>)
+TPublish(t) == /\ tpc[t] = "want_pub" /\ tleft[t] > 0 /\ (Variant = "early-release" \/ pubLock \in {0, t})
+               /\ (Variant = "early-release" => t \notin snaps)
+               /\ pubLock' = (IF Variant = "early-release" THEN pubLock ELSE t) /\ tleft' = [tleft EXCEPT ![t] = @ - 1]
                /\ pubSeq' = Append(pubSeq, <<tver[t], trev[t]>>) /\ Log(Who(t), "publish")
                /\ UNCH(<<inbox, mpc, vfsW, vfsR, snaps, tpc, tkind, nextTask, rev, trev, tver, dver, answered, processed>>)
 \* the loop over the files to publish for ends   (no hook: internal; the trace specification completes a run after any number of publishes)
@@ -134,7 +140,7 @@ TEnd(t) == /\ tpc[t] = IF SplitEnd THEN "dropped" ELSE "finish"
            /\ answered' = IF tkind[t] = "req" THEN answered + 1 ELSE answered
            /\ Log(Who(t), "end")
            /\ UNCH(<<inbox, mpc, vfsW, vfsR, tkind, tleft, nextTask, rev, trev, tver, dver, pubSeq, processed>>)
-Task(t) == TStart(t) \/ TAcquireR(t) \/ TReleaseR(t) \/ TPublish(t) \/ TPubDone(t) \/ TDrop(t) \/ TEnd(t)
+Task(t) == TStart(t) \/ TAcquireR(t) \/ TReleaseR(t) \/ TEarlyRelease(t) \/ TPublish(t) \/ TPubDone(t) \/ TDrop(t) \/ TEnd(t)
 
 Done == inbox = <<>> /\ mpc = "idle" /\ \A t \in Tasks : tpc[t] = "done"
 Next == Main \/ (\E t \in Tasks : Task(t)) \/ (Done /\ UNCHANGED vars)
